@@ -1,5 +1,6 @@
 """Obligations, three-valued verdicts, evidence files, known findings, exit codes."""
 
+import ast
 import json
 import os
 import pathlib
@@ -116,12 +117,20 @@ class Run:
         self._touch(func)
         return self._add(Ob(rule, _fname(func), _where(func, node), slot, UNRECOGNISED, found=why))
 
-    def check(self, cond, rule, func, node, slot, expected, found=None, extra=None):
+    def check(self, cond, rule, func, node, slot, expected, found=None, extra=None, strict=None):
         """PASS if cond else VIOLATION."""
         if found is None:
             found = astutil.src(node) if hasattr(node, '_fields') else ''
         if cond:
             return self.ok(rule, func, node, slot, found=found if len(str(found)) < 200 else str(found)[:200])
+        # three-valued discipline for shape matches: when both the expectation and what was found are code, a
+        # VIOLATION needs the same shape with a different slot value; a different shape is a rewrite the rule cannot
+        # judge (UNRECOGNISED).  Prose expectations/findings describe a decided semantic slot and stay VIOLATIONs.
+        if strict is None and isinstance(expected, str) and isinstance(found, str):
+            wn, fn = astutil.parse_expr(expected), astutil.parse_expr(found)
+            if wn is not None and fn is not None and not isinstance(wn, (ast.Name, ast.Constant)):
+                if astutil.skeleton(wn) != astutil.skeleton(fn):
+                    return self.unknown(rule, func, node, slot, f'shape not recognised (expected {expected}; found {found[:160]})')
         return self.bad(rule, func, node, slot, expected, found, extra)
 
     def same(self, cond, rule, func, node, slot, expected, found=None):
@@ -132,6 +141,36 @@ class Run:
         if cond:
             return self.ok(rule, func, node, slot, found=str(found)[:200])
         return self.unknown(rule, func, node, slot, f'shape not recognised (expected {expected}; found {str(found)[:160]})')
+
+    def expr(self, node, want, rule, func, slot, at=None, consequence=None):
+        """Three-valued comparison of an expression with the expected code ``want`` (text):
+        equal -> PASS; same shape but a leaf (name, attribute, constant, operator, keyword) differs -> VIOLATION (a
+        recognised construct with a wrong slot); different shape -> UNRECOGNISED (a rewrite the rule cannot judge)."""
+        found = astutil.src(node) if node is not None and hasattr(node, '_fields') else (node if isinstance(node, str) else 'nothing')
+        where = at if at is not None else (node if hasattr(node, '_fields') else (func.node if hasattr(func, 'node') else '?'))
+        if found == want:
+            return self.ok(rule, func, where, slot, found=found[:200])
+        wn = astutil.parse_expr(want)
+        fn = node if hasattr(node, '_fields') else astutil.parse_expr(found)
+        if wn is not None and fn is not None and astutil.src(fn) == astutil.src(wn):
+            return self.ok(rule, func, where, slot, found=found[:200])
+        if wn is not None and fn is not None and astutil.skeleton(fn) == astutil.skeleton(wn):
+            return self.bad(rule, func, where, slot, want, found[:200], extra={'consequence': consequence} if consequence else None)
+        return self.unknown(rule, func, where, slot, f'shape not recognised (expected {want}; found {found[:160]})')
+
+    def returns(self, func, want, rule, slot, expand=True, consequence=None):
+        """The function's single valued return (temporaries expanded) compared with ``want`` by :meth:`expr`."""
+        rets = [n for n in astutil.walk(func.body) if isinstance(n, ast.Return) and n.value is not None]
+        if len(rets) != 1:
+            return self.unknown(rule, func, func.node, slot, f'{len(rets)} valued returns (expected one: {want})')
+        value = rets[0].value
+        if expand:
+            value = astutil.Env(func).expand(value)
+        return self.expr(value, want, rule, func, slot, at=rets[0], consequence=consequence)
+
+    def decided(self, cond, rule, func, node, slot, expected, found=None, extra=None):
+        """PASS/VIOLATION for a slot decided semantically (truth-table equivalence, table decoding ...): never downgraded."""
+        return self.check(cond, rule, func, node, slot, expected, found, extra, strict=True)
 
     def floor(self, rule, n):
         self.floors[rule] = n
